@@ -1,6 +1,6 @@
 (* Properties/C03.v — Encoders and decoders are mutually inverse at every layer.
    Only statements, each closed by [exact] of a lemma proved in Proofs/. *)
-From PV Require Import Base.Prelude Base.Slice Model.EncodeBase Model.Encode Spec.EncodeRef Proofs.Encode Proofs.EncodeIP4 Proofs.EncodeEther.
+From PV Require Import Base.Prelude Base.Slice Model.EncodeBase Model.Encode Spec.EncodeRef Proofs.Encode Proofs.EncodeIP4 Proofs.EncodeEther Proofs.EncodeMisc.
 Open Scope N_scope.
 
 (* EncodeEther: for every buffer of capacity >= 14 (any length, any contents), every
@@ -173,3 +173,84 @@ Theorem C03_ether_append_rt_partial : forall b ht src dst pl pcap,
     ref_ether (view r) = Some {| re_dst := dst; re_src := src; re_type := ht; re_payload := pad46 pl |}.
 Proof. exact ether_append_rt_partial. Qed.
 Print Assumptions C03_ether_append_rt_partial.
+
+(* ---------------------------------------------------------------- *)
+(* ARP *)
+Theorem C03_arp_rt : forall b op smac sip dmac dip,
+  (28 <= cap b)%nat -> length smac = 6%nat -> length dmac = 6%nat -> is4 sip = true -> is4 dip = true ->
+  bytes_ok smac -> bytes_ok sip -> bytes_ok dmac -> bytes_ok dip -> op < 65536 ->
+  exists r,
+    encode_arp b op smac sip dmac dip = Ok r /\
+    len r = 28%nat /\ cap r = cap b /\ skipn 28 (arr r) = skipn 28 (arr b) /\
+    view r = arp_bytes op smac sip dmac dip /\ bytes_ok (view r) /\
+    arp_decode_lib r = Ok {| av_htype := 1; av_proto := 2048; av_hlen := 6; av_plen := 4; av_op := op;
+                             av_smac := smac; av_sip := sip; av_dmac := dmac; av_dip := dip |} /\
+    ref_arp (view r) = Some {| ra_op := op; ra_sha := smac; ra_spa := sip; ra_tha := dmac; ra_tpa := dip |}.
+Proof. exact arp_rt. Qed.
+Print Assumptions C03_arp_rt.
+
+(* ICMP echo (checksum field left zero by the encoder; the send path fills it: C15) *)
+Theorem C03_icmpecho_rt : forall b t code id sq data,
+  (8 + length data <= cap b)%nat -> t < 256 -> code < 256 -> id < 65536 -> sq < 65536 -> bytes_ok data ->
+  exists r,
+    encode_icmp_echo b t code id sq data = Ok r /\
+    len r = (8 + length data)%nat /\ cap r = cap b /\
+    skipn (8 + length data) (arr r) = skipn (8 + length data) (arr b) /\
+    view r = echo_bytes t code id sq data /\ bytes_ok (view r) /\
+    echo_decode_lib r = Ok {| ev_type := t; ev_code := code; ev_cksum := 0; ev_id := id; ev_seq := sq;
+                              ev_data := data |} /\
+    ref_echo (view r) = Some {| rc_type := t; rc_code := code; rc_cksum := 0; rc_id := id; rc_seq := sq;
+                                rc_data := data |}.
+Proof. exact echo_rt. Qed.
+Print Assumptions C03_icmpecho_rt.
+
+(* IPv6: addresses are decoded in their 16-byte form (As16: IPv4 addresses appear v4-mapped) *)
+Theorem C03_ip6_rt : forall p hop src dst b nh,
+  (40 + length b <= cap p)%nat -> bytes_ok src -> bytes_ok dst -> bytes_ok b ->
+  nh < 256 -> hop < 256 -> 40 + N.of_nat (length b) < 65536 ->
+  exists ip r,
+    encode_ip6 p hop src dst = Ok (ip, false) /\ len ip = 40%nat /\
+    ip6_append ip b false nh = Ok r /\
+    len r = (40 + length b)%nat /\ cap r = cap p /\
+    skipn (40 + length b) (arr r) = skipn (40 + length b) (arr p) /\
+    bytes_ok (view r) /\
+    ip6_decode_lib r = Ok (ip6_expected_view nh hop (as16 src) (as16 dst) b) /\
+    ref_ip6 (view r) = Some (ip6_expected_ref nh hop (as16 src) (as16 dst) b).
+Proof. exact ip6_append_rt. Qed.
+Print Assumptions C03_ip6_rt.
+
+(* NDP neighbour advertisement *)
+Theorem C03_na_rt : forall ro so ov tip tmac,
+  length tip = 16%nat -> length tmac = 6%nat -> bytes_ok tip -> bytes_ok tmac ->
+  exists r,
+    na_marshal ro so ov tip tmac = Ok r /\ len r = 32%nat /\ cap r = 32%nat /\
+    view r = [136; 0; 0; 0; nd_flags ro so ov; 0; 0; 0] ++ tip ++ [2; 1] ++ tmac /\ bytes_ok (view r) /\
+    na_decode_lib r = Ok {| nv_type := 136; nv_code := 0; nv_router := ro; nv_solicited := so; nv_override := ov;
+                            nv_target := tip; nv_lla := Some tmac |} /\
+    ref_nd (view r) = Some {| rn_type := 136; rn_code := 0; rn_flags := nd_flags ro so ov; rn_target := tip;
+                              rn_options := [(2, tmac)] |} /\
+    (forall m, ref_nd (view r) = Some m -> ref_na_tlla m = Some tmac).
+Proof. exact na_rt. Qed.
+Print Assumptions C03_na_rt.
+
+(* NDP neighbour solicitation: the marshal function writes option type 2 (finding
+   ns-marshal-option-type): the source link-layer address is lost by both decoders. *)
+Theorem C03_ns_rt_refuted :
+  exists tip slla, length tip = 16%nat /\ length slla = 6%nat /\ bytes_ok tip /\ bytes_ok slla /\
+    known_C03_ns_option_type tip slla = true /\
+    exists r, ns_marshal tip slla = Ok r /\
+      (v <- ns_decode_lib r ;; Ok (sv_lla v))%res = Ok None /\
+      (match ref_nd (view r) with Some m => ref_ns_slla m | None => None end) = None.
+Proof. exact ns_rt_refuted. Qed.
+Print Assumptions C03_ns_rt_refuted.
+
+Theorem C03_ns_rt_partial : forall tip slla,
+  length tip = 16%nat -> length slla = 6%nat -> bytes_ok tip -> bytes_ok slla ->
+  exists r,
+    ns_marshal tip slla = Ok r /\ len r = 32%nat /\
+    view r = ns_bytes NS_OPT_TYPE tip slla /\
+    (v <- ns_decode_lib r ;; Ok (sv_type v, sv_code v, sv_target v))%res = Ok (135, 0, tip) /\
+    ref_nd (view r) = Some {| rn_type := 135; rn_code := 0; rn_flags := 0; rn_target := tip;
+                              rn_options := [(NS_OPT_TYPE, slla)] |}.
+Proof. exact ns_rt_partial. Qed.
+Print Assumptions C03_ns_rt_partial.
